@@ -978,6 +978,19 @@ def common_summaries():
         o = as_enum(ex, st, deref(ex, st, argv[0]))
         return [(st, Bool(o.disc_bv() == (0 if fn.endswith('is_ok') else 1)))]
 
+    @reg(r'^(std::sync::|std::cell::|core::cell::)?(OnceLock|OnceCell)::<.*>::get_or_init::<')
+    def once_get_or_init(ex, st, fn, argv):
+        """a process-wide (or longer-lived) cell: either this call initialises it by running the closure, or an earlier call - with whatever
+        inputs it had then - already did and that older value is what comes back"""
+        ty = re.search(r'(?:OnceLock|OnceCell)::<(.*)>::get_or_init::<', fn).group(1)
+        s2, argv2 = copy.deepcopy((st, argv))
+        n_ = len(st.roots.setdefault('once_cells', []))
+        st.roots['once_cells'].append('initialised-now')
+        s2.roots.setdefault('once_cells', []).append('initialised-earlier')
+        earlier = Lazy(ty, f'once.earlier{n_}')
+        return [(st, ('CALL', argv[1], [], ('custom', lambda ex_, st_, rv: Ref(Cell(rv, 'once-cell'))))),
+                (s2, Ref(Cell(earlier, 'once-cell')))]
+
     @reg(r'^(std::option::)?Option::<.*>::(get_or_insert|insert|replace)$')
     def opt_insert_family(ex, st, fn, argv):
         op = fn.rsplit('::', 1)[1]
